@@ -142,6 +142,8 @@ def one_schema(c, k, seed, kind, nmsgs_rt):
         for v, d in vals:
             e = E.get((num, v))
             stats['enum_values_checked'] = stats.get('enum_values_checked', 0) + 1
+            if d is None:
+                d = v       # no description attribute: the value stands for itself
             if not e or e[0] < 0 or e[1] != d:
                 viol.append(('oracle:enumerated-value-or-description-wrong|' + typ, '%s: field %d value %r description %r -> %s' % (tag, num, v, d, e)))
         if vals:
@@ -234,8 +236,8 @@ def one_schema(c, k, seed, kind, nmsgs_rt):
 
 def add_group_variants(gen, rng, k):
     """reserve fields for two definitions of one count field; family 0 = random difference, 1 = constructed hash collision"""
-    family = k % 2
-    info = {'family': family, 'family_name': 'constructed-hash-collision' if family else 'random-definitions'}
+    family = k % 3
+    info = {'family': 1 if family else 0, 'family_name': ['random-definitions', 'constructed-hash-collision', 'constructed-prefix-collision'][family]}
     cname = 'NoVariant'
     gen.fields.append((gen.num(), cname, 'NUMINGROUP', []))
     if family == 0:
@@ -247,6 +249,33 @@ def add_group_variants(gen, rng, k):
         a = names[:rng.randint(1, 3)]
         b = [names[0]] + names[3:] if rng.random() < 0.5 else names[2:]
         info['defs'] = [a, b]
+    elif family == 2:
+        # {a,b} and {a,b,c,d} with equal hashes: d = L(L(h)^c^C) ^ C ^ h for h = hash{a,b}; search c until d is a usable field number
+        L = lambda x: (x ^ (x >> 2) ^ ((x << 5) & 0xffffffff) ^ ((x << 13) & 0xffffffff)) & 0xffffffff
+        C = 0x80001801
+        found = None
+        for _ in range(400):
+            a = rng.randint(600, 1200)
+            b = rng.randint(a + 1, 2500)
+            if {a, b} & gen.used_nums:
+                continue
+            h = schemagen.group_hash([a, b])
+            for c_ in range(b + 1, 30000):
+                d = L(L(h) ^ c_ ^ C) ^ C ^ h
+                if c_ < d < 60000 and not ({c_, d} & gen.used_nums):
+                    found = (a, b, c_, d)
+                    break
+            if found:
+                break
+        if not found:
+            return add_group_variants(gen, rng, 1)
+        a, b, c_, d = found
+        assert schemagen.group_hash([a, b]) == schemagen.group_hash([a, b, c_, d])
+        info['hashes'] = [schemagen.group_hash([a, b])]
+        for num in (a, b, c_, d):
+            gen.used_nums.add(num)
+            gen.fields.append((num, 'Col%d' % num, 'INT' if num == a else 'STRING', []))
+        info['defs'] = [['Col%d' % a, 'Col%d' % b], ['Col%d' % a, 'Col%d' % b, 'Col%d' % c_, 'Col%d' % d]]
     else:
         # two-field definitions {a,b} and {a^1, b ^ L(1)} have equal structural hashes: L(x) = x ^ x>>2 ^ x<<5 ^ x<<13
         while True:
